@@ -8,6 +8,10 @@ import Marwood.Lemmas.EvalDerivedExpand
 import Marwood.Lemmas.CompileCorrect
 import Marwood.Lemmas.CompileCorrectDemo
 import Marwood.Lemmas.CompileCorrectLoop
+import Marwood.Lemmas.CompileCorrect2ErrAtoms
+import Marwood.Lemmas.CompileCorrect2Quote
+import Marwood.Lemmas.CompileCorrect2Demo
+import Marwood.Lemmas.CompileCorrect2FailDemo
 /-!
 # C01 — evaluation agrees with the language semantics for core and derived forms
 
@@ -30,12 +34,17 @@ What is proved here and what is not (see `lib/props/c01.py` META.note):
   `#<undefined>`); for the rules that bind `var1` / `temp` (or with ≥ 2 operands, cond `=>` and
   test-only clauses) only what the expansion computes is characterised and the capture is proved at
   witnesses; case with a datum list and delay are open (see `lib/props/c01.py` META.note).
-* T01.3 (compiler correctness, `run (compile e) ≈ Spec.Eval e`): stage 1 only, `_partial`
-  (`compile_correct_stage1_partial`, `compile_define_stage1_partial`; `Lemmas/CompileCorrect*.lean`): the
-  closure-free fragment, the success case, on the model machine over an abstract heap satisfying the
-  explicit laws `RepLaws` (the behaviour of builtin calls is one of the laws). Closures, lexical
-  variables, `quote` of pairs, the error case are open; the agreement of the real pipeline with
-  `Spec.Eval` is carried by the differential correspondence.
+* T01.3 (compiler correctness, `run (compile e) ≈ Spec.Eval e`), all `_partial`, on the model machine over
+  an abstract heap satisfying explicit law structures (the behaviour of builtin calls is one of the laws):
+  stage 1 (`compile_correct_stage1_partial`; `Lemmas/CompileCorrect*.lean`): the closure-free fragment,
+  success case; its ERROR case (`compile_correct_stage1_error_partial`; `Lemmas/CompileCorrect2Err*.lean`):
+  the machine fails with the corresponding class in a state whose heap represents the specification's
+  failure state; `quote` of pairs and vectors (`quote_compound_partial`; `Lemmas/CompileCorrect2Quote.lean`);
+  STAGE 2 (`compile_correct_stage2_partial`, `closure_call_stage2_partial`; `Lemmas/CompileCorrect2*.lean`):
+  `lambda` with fixed arity, closure creation, calls and tail calls of closures, references and `set!` of
+  lexical variables at any depth, success case, and its ERROR case (`compile_correct_stage2_error_partial`).
+  Rest parameters, internal definitions, quasiquote, call/cc, `eval`/`apply`, GC interleaving are open; the
+  agreement of the real pipeline with `Spec.Eval` is carried by the differential correspondence.
 -/
 namespace Marwood.Proofs.C01
 open Marwood Marwood.Vm
@@ -561,5 +570,186 @@ theorem compile_correct_stage1_partial {H : Type} {ops : HeapOps H} {D : RepData
     (hsr : SR D s.heap σ) (hw : SWF s.stack) :
     ∃ s', ExprRun D s code.length σ σ' w s' :=
   compileExpr_correct L fuel cst base tail e cst' code hf hcomp n σ w σ' hev s hc hip hsr hw
+
+
+/-! ## T01.3 stage 1, ERROR case (partial)
+
+`Lemmas/CompileCorrect2Err*.lean`. Additional ASSUMED law `ErrLaws D`: when the specification's `apply` fails
+(class other than `syntax`) on a represented callee and represented arguments, the machine's dispatch sees
+either no procedure (`InvalidProcedure`; specification class `notProcedure`) or a generic builtin whose
+evaluation returns an error of the same class (classes at the granularity unbound / not-procedure / user /
+wrong, `machClass` / `specClass`), and the unchanged heap represents the specification's failure state.
+EXCLUDED, explicitly: specification errors of class `syntax` (inexact / rational constants are outside the
+specification's grammar; the machine loads them) and `set!` of an unbound global (the specification fails,
+marwood defines the variable — DESIGN §7.5), the latter through the hypothesis that every `set!` target is
+bound in the failure state. The laws are derived from elementary ones for the store-free representation
+(`atomErrLaws_errLaws`), the dispatch part proved on the concrete heap model (`concrete_atomErrLaws`), and
+every hypothesis is discharged for `(if (set! g #t) (g) 1)` (`demo_err_runs`: the machine stores `#t` in `g`,
+then fails in `CALL` with `InvalidProcedure`; the heap at the failure has `g = #t`). -/
+
+open Marwood.Lemmas.CompileCorrect in
+/-- **T01.3 stage 1, error case, partial.** If `Spec.Eval` ends the evaluation of a fragment expression `e`
+    from `σ` with error class `c ≠ syntax` in state `σ'`, and every `set!` target of `e` is bound in `σ'`, then
+    from every machine state holding the compiled code at `ip.1` whose heap represents `σ` the machine runs
+    without failing to a state `sf` in which `run_one` returns an error `e'` of the class of `c`; `sf` has the
+    lambda, `bp`, `ep` of the start, the start's live stack below whatever operands were pushed, and a heap
+    that represents `σ'`: exactly the completed effects. -/
+theorem compile_correct_stage1_error_partial {H : Type} {ops : HeapOps H} {D : RepData ops} (L : RepLaws D)
+    (LE : ErrLaws D) (fuel : Nat) (cst : CState) (base : Nat) (tail : Bool) (e : Datum) (cst' : CState)
+    (code : List BC) (hf : Frag e) (hcomp : compileExpr fuel cst c0 base tail e = .ok (cst', code))
+    (n : Nat) (σ : Spec.Eval.St) (c : ErrClass) (σ' : Spec.Eval.St)
+    (hev : (evalN n).eval e [] σ = .err c σ') (hcs : c ≠ .syntax)
+    (hset : ∀ x ∈ setTargets e, σ'.globals.lookup x ≠ none)
+    (s : Vm.St H) (hc : CodeAt D s.heap σ.store s.ipL base code) (hip : s.ipO = base)
+    (hsr : SR D s.heap σ) (hw : SWF s.stack) :
+    ∃ sf e', ErrRun D s σ σ' c sf e' :=
+  compileExpr_correct_err L LE fuel cst base tail e cst' code hf hcomp n σ c σ' hev hcs hset s hc hip hsr hw
+
+open Marwood.Lemmas.CompileCorrect in
+/-- the excluded case is a real difference: `(set! x e)` with `x` unbound fails in the specification -/
+theorem set_unbound_spec_fails {r : Rec} {x : Text} {e : Datum} {σ σ1 : St} {v : Val}
+    (hx : reserved x = false) (he : r.eval e [] σ = .ok v σ1) (hl : σ1.globals.lookup x = none) :
+    evalStep r (.pair (.sym k_setBang) (.pair (.sym x) (.pair e .nil))) [] σ = .err .unbound σ1 :=
+  setBang_unbound_spec_fails hx he hl
+
+
+/-! ## T01.3: `quote` of compound data (partial)
+
+`Lemmas/CompileCorrect2Quote.lean`, over the generic heap with a minimal extension of the laws (`QuoteLaws`:
+a heap pair / vector whose components represent `a`, `d` / the elements represents the store pair / vector;
+representations are monotone in the store). `DatumAt` describes what `put_cell` lays out at compile time.
+One heap object represents every copy `Spec.Eval.quoteVal` allocates — sound while constants are not
+mutated (R7RS: an error; `Spec.Eval` and marwood differ there, see META.note). The laws hold for the closure
+of any store-independent base relation (`closedVR_quoteLaws`). -/
+
+open Marwood.Lemmas.CompileCorrect in
+/-- **`(quote d)` for any datum `d`**: `MOV-IMMEDIATE <v> %acc` with the datum laid out at `v` leaves a
+    representation of the value `quoteVal d` returns, the heap represents the state `quoteVal` leaves. -/
+theorem quote_compound_partial {H : Type} {ops : HeapOps H} {D : RepData ops}
+    {vecElems : H → VCell → Option (List VCell)} (Q : QuoteLaws D vecElems) {s : Vm.St H} {σ σ' : Spec.Eval.St}
+    {w : Val} {d : Datum} {v : VCell} (hl : ops.isLambda s.heap s.ipL = true)
+    (h0 : ops.fetch s.heap s.ipL s.ipO = some (.opcode .movImm))
+    (h1 : ops.fetch s.heap s.ipL (s.ipO + 1) = some v) (hv : ∀ o, v ≠ .opcode o)
+    (h2 : ops.fetch s.heap s.ipL (s.ipO + 2) = some .acc)
+    (hd : DatumAt D vecElems s.heap σ.store v d) (hq : quoteVal d σ = .ok w σ') (hsr : SR D s.heap σ) (hw : SWF s.stack) :
+    ∃ s', ExprRun D s 3 σ σ' w s' :=
+  run_quote Q hl h0 h1 hv h2 hd hq hsr hw
+
+
+/-! ## T01.3 STAGE 2 (partial): `lambda`, closures, lexical variables, calls and tail calls
+
+`Lemmas/CompileCorrect2*.lean`. Representation `D : RepData2 ops` = stage-1 data + the environment-map sources
+of each lambda object + the table tying the compiler's lambda indices to heap addresses. Values (`VR2`):
+a closure value is a machine value `CALL` dispatches to `Closure(lam, env)` where `lam` holds the compiled
+body of the same `lambda` expression (same compiler model run) and every captured slot of `env` is a
+one-level `LexicalEnvPtr` to the location standing for the captured variable; `World` relates machine
+variable locations (environment id, slot) and specification locations one-to-one; `Inv2` is the heap/state
+invariant (globals, loaded code, every related location holds a value — not a pointer — representing the
+variable's content); `EnvRep` says the current `ep` represents the specification's `ρ` through the binding
+context. ASSUMED: `Laws2 D` — observation of values (`truth`, …), the global store, `envPut` on a value slot,
+CLOSURE (`closure_ok`: a fresh environment whose captured slots are what `build_closure_environment`
+computes, a fresh closure cell, everything else unchanged), ENTER (`activation_ok`: a fresh environment
+with the arguments from the stack and the captured pointers copied), and the behaviour of primitive
+procedures (`call`). The laws are PROVED for the small heap of `Lemmas/CompileCorrect2Toy.lean` (`Toy.laws`),
+and every hypothesis is discharged for `((lambda (x) (if x 1 2)) #t)` (`demo_closure_runs`) and for the tail
+call `((lambda (f) (f #t)) (lambda (x) (if x 1 2)))` (`demo_tailcall_runs`).
+
+Fragment `F2 fuel c ns tail e` (indexed by compiler fuel, binding context, bound names, tail flag):
+constants, `(quote atom)`, variable reference and `set!` (lexical at any depth, or global), `if`, application
+(tail and non-tail; callee a primitive or a closure), `(lambda (x …) b …)` with fixed arity, DISTINCT
+parameters, no internal definitions. The fragment carries well-scopedness as data about the compiler model:
+for each `lambda` the environment map `lambdaParts` computes is the formals followed by captured variables
+taken from the enclosing map, and at each variable the map has an entry exactly when the name is lexically
+bound (i.e. the free-variable analysis was adequate for this program — checked by computation for a given
+program; proved in general for the scope-skeleton model in C02). EXCLUDED: rest parameters (VARARG), internal
+definitions, duplicate parameters, derived forms (macros: T01.2), quasiquote, `define` inside bodies,
+call/cc, `eval`/`apply`/`map` (re-dispatching builtins), the error case, GC. -/
+
+open Marwood.Lemmas.CompileCorrect Marwood.Lemmas.CompileCorrect2 in
+/-- **T01.3 stage 2, partial.** If the compiler model emits `code` for `e ∈ F2` at offset `base` in context
+    `c` and `Spec.Eval` evaluates `e` in `ρ` from `σ` to `w`, `σ'`, then from every machine state whose
+    current lambda holds `code` at `base = ip.1`, whose heap represents `σ` (`Inv2` in world `W`), whose `ep`
+    represents `ρ` (`EnvRep`) — and, for code compiled with the tail flag, whose `bp` points at a frame `fr` —
+    the machine runs without halting or failing to a state that represents `(w, σ')` in a world `W' ⊇ W`:
+    either behind the code with lambda, `bp`, `ep`, live stack restored (`Run2`), or, after a tail call of a
+    closure, in the caller of the current activation exactly as its `RET` would have left it (`Ret2`). -/
+theorem compile_correct_stage2_partial {H : Type} {ops : HeapOps H} {D : RepData2 ops} (L : Laws2 D)
+    (f : Nat) (cst : CState) (c : Ctx) (base : Nat) (tail : Bool) (e : Datum) (cst' : CState) (code : List BC)
+    (ρ : Env) (hf : F2 D.setG f c (bound ρ) tail e) (hcx : CtxOK c)
+    (hcomp : compileExpr f cst c base tail e = .ok (cst', code)) (hpre : cst'.lambdas <+: D.final)
+    (n : Nat) (σ : Spec.Eval.St) (w : Val) (σ' : Spec.Eval.St) (hev : (evalN n).eval e ρ σ = .ok w σ')
+    (W : World) (s : Vm.St H) (fr : Frame) (hc : CodeAt2 D c.envmap s.heap σ.store s.ipL base code)
+    (hip : s.ipO = base) (hi : Inv2 D W s.heap σ) (her : EnvRep ops W s.heap c s.ep ρ) (hw : SWF s.stack)
+    (hfr : tail = true → FrameAt s.stack s.bp fr) :
+    ∃ W' s', W.le W' ∧ Out2 D W' s code.length σ σ' w tail fr s' :=
+  compileExpr_correct2 L f cst c base tail e cst' code ρ hf hcx hcomp hpre n σ w σ' hev W s fr hc hip hi her hw hfr
+
+open Marwood.Lemmas.CompileCorrect Marwood.Lemmas.CompileCorrect2 in
+/-- **The call of a closure.** From the state `CALL`/`TCALL` leaves (operands, their number, `%ep`, the return
+    address on the stack; `ip` at the closure's lambda) the machine runs ENTER, the body, RET and ends in the
+    caller with the operands popped, `%ep` and `%bp` restored and a representation of the result in `acc`. -/
+theorem closure_call_stage2_partial {H : Type} {ops : HeapOps H} {D : RepData2 ops} (L : Laws2 D) (n : Nat) :
+    CallOK2 D n := closureCall_correct2 L n
+
+open Marwood.Lemmas.CompileCorrect Marwood.Lemmas.CompileCorrect2 in
+/-- at top level (non-tail): the statement of stage 1, now with closures -/
+theorem compile_correct_stage2_toplevel {H : Type} {ops : HeapOps H} {D : RepData2 ops} (L : Laws2 D)
+    (f : Nat) (cst : CState) (base : Nat) (e : Datum) (cst' : CState) (code : List BC)
+    (hf : F2 D.setG f c0 (bound []) false e)
+    (hcomp : compileExpr f cst c0 base false e = .ok (cst', code)) (hpre : cst'.lambdas <+: D.final)
+    (n : Nat) (σ : Spec.Eval.St) (w : Val) (σ' : Spec.Eval.St) (hev : (evalN n).eval e [] σ = .ok w σ')
+    (W : World) (s : Vm.St H) (hc : CodeAt2 D c0.envmap s.heap σ.store s.ipL base code)
+    (hip : s.ipO = base) (hi : Inv2 D W s.heap σ) (hw : SWF s.stack) :
+    ∃ W' s', W.le W' ∧ Run2 D W' s code.length σ σ' w s' :=
+  compileExpr_correct2_nontail L f cst c0 base e cst' code [] hf ctxOK_top hcomp hpre n σ w σ' hev W s hc hip hi
+    (envRep_top _ _ _) hw
+
+open Marwood.Lemmas.CompileCorrect Marwood.Lemmas.CompileCorrect2 in
+/-- **T01.3 stage 2, ERROR case, partial.** If `Spec.Eval` ends the evaluation of `e ∈ F2` in `ρ` from `σ` with
+    an error of class `cl ≠ syntax` in state `σ'` — an unbound variable, a non-procedure in operator position,
+    a closure called with the wrong number of arguments, a failing primitive — at any depth of closure calls
+    and tail calls, then the machine runs without failing to a state `sf` in which `run_one` returns an error
+    of the class of `cl` (`VariableNotBound`, `InvalidProcedure`, `InvalidNumArgs`, the builtin's); the heap of
+    `sf` represents `σ'` (exactly the completed effects), and the live stack of the start state — in tail
+    position: of the caller of the current activation — is intact below the frames of the calls in progress
+    (nothing is unwound). Additional ASSUMED law `ErrLaws2` (a failing primitive is a generic builtin failing
+    with the same class; a stage-1 value that is not a primitive is no procedure for the dispatch), proved on
+    the heap of `CompileCorrect2Toy.lean` (`Toy.errLaws`); every hypothesis discharged for
+    `((lambda (x) (x)) #t)` (`Toy.demo_closure_fails`: `TCALL` fails with `InvalidProcedure` inside the activation).
+    `set!` of an unbound global cannot occur: `F2` restricts `set!` of globals to the names `D.setG`, which
+    `Inv2` keeps bound. -/
+theorem compile_correct_stage2_error_partial {H : Type} {ops : HeapOps H} {D : RepData2 ops} (L : Laws2 D)
+    (LE : ErrLaws2 D) (f : Nat) (cst : CState) (c : Ctx) (base : Nat) (tail : Bool) (e : Datum) (cst' : CState)
+    (code : List BC) (ρ : Env) (hf : F2 D.setG f c (bound ρ) tail e) (hcx : CtxOK c)
+    (hcomp : compileExpr f cst c base tail e = .ok (cst', code)) (hpre : cst'.lambdas <+: D.final)
+    (n : Nat) (σ : Spec.Eval.St) (cl : ErrClass) (σ' : Spec.Eval.St) (hev : (evalN n).eval e ρ σ = .err cl σ')
+    (hcs : cl ≠ .syntax) (W : World) (s : Vm.St H) (fr : Frame)
+    (hc : CodeAt2 D c.envmap s.heap σ.store s.ipL base code) (hip : s.ipO = base) (hi : Inv2 D W s.heap σ)
+    (her : EnvRep ops W s.heap c s.ep ρ) (hw : SWF s.stack) (hfr : tail = true → FrameAt s.stack s.bp fr) :
+    ∃ W' sf e', W.le W' ∧ ErrRun2 D W' s (errBase tail s fr) σ σ' cl sf e' :=
+  compileExpr_correct2_err L LE f cst c base tail e cst' code ρ hf hcx hcomp hpre n σ cl σ' hev hcs W s fr hc hip hi
+    her hw hfr
+
+/-! ### where `Spec.Eval` and the implementation choose differently at points R7RS leaves open
+(found while proving stage 2; neither is a defect: both programs are errors in R7RS) -/
+
+open Marwood.Lemmas.CompileCorrect2 in
+/-- duplicate parameters: `((lambda (x x) x) 1 2)` is 2 in `Spec.Eval` (the last binding shadows); the compiler
+    model resolves `x` to the first entry of the environment map (the first argument; the real VM answers 1).
+    Stage 2 requires distinct parameters. -/
+theorem duplicate_parameters_differ :
+    results 10 [L [L [s k_lambda, L [s ['x'], s ['x']], s ['x']], .num (.fix 1), .num (.fix 2)]]
+      = [.ok (.num (.fix 2))] ∧
+    slotIdx (argEntries [['x'], ['x']]) ['x'] = some 0 := by
+  constructor <;> decide +kernel
+
+/-- mutation of a quoted constant: `Spec.Eval` allocates the datum at every evaluation of the `quote`, so
+    `(define (f) '(1 2)) (set-car! (f) 9) (f)` is `(1 2)`; the implementation shares the compile-time constant
+    and answers `(9 2)`. -/
+theorem quoted_constant_mutation_spec :
+    results 12 [L [s k_define, L [s ['f']], L [s k_quote, L [.num (.fix 1), .num (.fix 2)]]],
+                L [s ['s','e','t','-','c','a','r','!'], L [s ['f']], .num (.fix 9)],
+                L [s ['f']]]
+      = [.ok .void, .ok .void, .ok (L [.num (.fix 1), .num (.fix 2)])] := by decide +kernel
 
 end Marwood.Proofs.C01
